@@ -1310,6 +1310,10 @@ func (e *Exec) specCall(call *ast.CallExpr, c *Ctx) Term {
 			return Term{e.mapVal(c.st, m), &Type{K: KGMap, Key: m.T.Key, Elem: m.T.Elem}}
 		case "smap":
 			// smap(x.f): the (dom, val) view of a sync.Map field: smapdom / smapval
+		case "str2bytes":
+			v := e.eval(call.Args[0], c)
+			bt := &Type{K: KSlice, Elem: &Type{K: KInt, G: types.Typ[types.Uint8]}, G: types.NewSlice(types.Typ[types.Uint8])}
+			return e.uninterp("str2bytes", []Term{v}, bt)
 		case "chcap":
 			ch := e.eval(call.Args[0], c)
 			ca := e.get(c.st, "H!$chan!cap", &Type{K: KGMap, Key: tInt, Elem: tInt})
@@ -1555,6 +1559,21 @@ func (e *Exec) resultBindings(ct *Contract, fr *Frame, r *Ret) map[string]Term {
 			bound[rn[i]] = v
 		}
 	}
+	// parameters in post-conditions denote their values at entry (Go parameters are mutable locals)
+	if fr.fi != nil && fr.entry != nil {
+		ftype := fr.fi.Decl.Type
+		if ftype.Params != nil {
+			for _, f := range ftype.Params.List {
+				for _, n := range f.Names {
+					if obj := fr.info.Defs[n]; obj != nil {
+						if v, ok := fr.entry.vars[e.keyOf(obj)]; ok {
+							bound[n.Name] = v
+						}
+					}
+				}
+			}
+		}
+	}
 	// positional parameter aliases
 	if len(ct.Params) > 0 && fr.fi != nil {
 		i := 0
@@ -1565,7 +1584,11 @@ func (e *Exec) resultBindings(ct *Contract, fr *Frame, r *Ret) map[string]Term {
 						if v, ok := fr.entry.vars[k]; ok {
 							_ = v
 						}
-						bound[ct.Params[i]] = e.get(r.st, k, fr.ntypes[n.Name])
+						if ev, ok := fr.entry.vars[k]; ok {
+							bound[ct.Params[i]] = ev
+						} else {
+							bound[ct.Params[i]] = e.get(r.st, k, fr.ntypes[n.Name])
+						}
 					}
 				}
 				i++
